@@ -137,7 +137,8 @@ def do_analyze(ex, idx, op):
 
     def fn():
         box["r"] = analyse(lexer_name, text)
-    obs = w.run_process(fn, op["nonce"], w.base, set_policy=ex.set_policy, walk_policy=ex.walk_policy)
+    obs = w.run_process(fn, op["nonce"], w.base, set_policy=ex.set_policy, walk_policy=ex.walk_policy,
+                        new_process=False)
     if obs["outcome"] == "ok":
         got = box["r"]
     elif obs["outcome"] == "internal_error":
@@ -165,10 +166,24 @@ def do_scan_inproc(ex, idx, op):
     def fn():
         from codelimit.common.Scanner import scan_path
         box["cb"] = scan_path(Path(w.root))
-    obs = w.run_process(fn, op["nonce"], w.base, set_policy=ex.set_policy, walk_policy=ex.walk_policy)
+    obs = w.run_process(fn, op["nonce"], w.base, set_policy=ex.set_policy, walk_policy=ex.walk_policy,
+                        new_process=False)
     if obs["outcome"] != "ok":
         ex.probe("inconclusive_scan_failed")
         return obs
+    # isolation across scans in one process: exactly the files the (history-free)
+    # reference model selects for the current tree and root .gitignore
+    from . import common
+    pats = common.current_patterns(w)
+    if all(O.model_pattern_class(p) is not None for p in pats):
+        want = common.model_files(w)
+        got_files = set(box["cb"].files)
+        if got_files != set(want):
+            ex.add(violation("C06", "scan_independent_of_earlier_scans",
+                             "in-process scan #%d of this run analysed %s but a history-free scan analyses %s (only in scan: %s; missing: %s)"
+                             % (ex.cover["proc_ops"].get("scan_inproc", 0) + 1, len(got_files), len(want),
+                                sorted(got_files - set(want)), sorted(set(want) - got_files)), idx))
+        ex.probe("c06_inproc_fileset_checked")
     res = {}
     for path, e in box["cb"].files.items():
         got = [[m.unit_name, m.start.line, m.start.column, m.end.line, m.end.column, m.value] for m in e.measurements()]
@@ -200,6 +215,7 @@ def gen(i, R, tier, force_mode=None):
         "set_policy": sw.choice(("mixed", "mixed", "shuffled", "reversed", "rotate", "insertion")),
         "walk_policy": sw.choice(("shuffled", "shuffled", "reversed", "sorted")),
         "mode": sw.choice(("library", "library", "process")),
+        "builtin_set": sw.random() < 0.1,
     }
     if force_mode:
         swarm["mode"] = force_mode
@@ -220,7 +236,21 @@ def gen(i, R, tier, force_mode=None):
             else:
                 lexer, cid = rng.choice(P)
             ops.append({"op": "analyze", "lexer": lexer, "content": cid, "nonce": G.nonce(rng)})
-            if rng.random() < 0.06:
+            r2 = rng.random()
+            if r2 < 0.05:
+                ops.append({"op": "scan_inproc", "nonce": G.nonce(rng)})
+            elif r2 < 0.09:
+                # a scan of the same tree under another root .gitignore, then without it:
+                # nothing of the first scan's configuration may survive into the second
+                from . import c11
+                pats = list(dict.fromkeys(c11.pattern(rng, placed) for _ in range(rng.randint(1, 3))))
+                ops.append({"op": "set_gitignore", "patterns": pats})
+                ops.append({"op": "scan_inproc", "nonce": G.nonce(rng)})
+                ops.append({"op": "set_gitignore", "patterns": None})
+                ops.append({"op": "scan_inproc", "nonce": G.nonce(rng)})
+            elif r2 < 0.11 and placed:
+                p = rng.choice(sorted(placed))
+                ops.append({"op": "delete", "path": p})
                 ops.append({"op": "scan_inproc", "nonce": G.nonce(rng)})
         ops.append({"op": "scan_inproc", "nonce": G.nonce(rng)})
     else:
